@@ -110,7 +110,7 @@ def classify(channel, rc, err, fatal_only=False):
             cls = "use-after-free"
         elif "retag" in low or "borrow" in low or "forbidden" in low or "protect" in low:
             cls = "aliasing"
-        elif "out-of-bounds" in low or "bounds" in low or "is only" in low:
+        elif "out-of-bounds" in low or "bounds" in low or "is only" in low or "beyond the end" in low:
             cls = "oob"
         else:
             cls = "other"
